@@ -513,6 +513,7 @@ impl<'a, 'b> G<'a, 'b> {
             }
             15 | 16 if self.luau() => self.luau_stmt(),
             17 if self.prev_terminated => self.paren_start_stmt(),
+            18 => self.assign(),
             _ => self.call_stmt(),
         }
     }
@@ -606,7 +607,7 @@ impl<'a, 'b> G<'a, 'b> {
             self.var();
         }
         self.sp();
-        if self.luau() && n == 1 && self.t.chance(50) {
+        if self.luau() && n == 1 && self.t.chance(110) {
             self.labels.insert("compound-assign");
             let ops = ["+=", "-=", "*=", "/=", "//=", "%=", "^=", "..="];
             let op = ops[self.t.pick(ops.len())];
